@@ -245,7 +245,8 @@ func (n *Nodis) LPopRPush(source, destination string) []byte {
 		if v == nil {
 			return nil
 		}
-		if meta.value.(*list.LinkedList).LLen() == 0 {
+		// a rotation (source = destination) keeps its key even while the list is empty for a moment
+		if meta.value.(*list.LinkedList).LLen() == 0 && source != destination {
 			tx.delKey(source)
 		}
 		n.signalModifiedKey(source, meta)
@@ -273,7 +274,8 @@ func (n *Nodis) RPopLPush(source, destination string) []byte {
 		if v == nil {
 			return nil
 		}
-		if meta.value.(*list.LinkedList).LLen() == 0 {
+		// a rotation (source = destination) keeps its key even while the list is empty for a moment
+		if meta.value.(*list.LinkedList).LLen() == 0 && source != destination {
 			tx.delKey(source)
 		}
 		n.signalModifiedKey(source, meta)
